@@ -316,7 +316,14 @@ func countingExit(comp []*ssa.BasicBlock) bool {
 			continue
 		}
 		for _, pair := range [][2]ssa.Value{{bo.X, bo.Y}, {bo.Y, bo.X}} {
-			phi, ok := pair[0].(*ssa.Phi)
+			cv := pair[0]
+			// a range loop compares the incremented counter (phi + 1) with the bound
+			if st, ok := cv.(*ssa.BinOp); ok && (st.Op == token.ADD || st.Op == token.SUB) {
+				if _, isC := constInt(st.Y); isC {
+					cv = st.X
+				}
+			}
+			phi, ok := cv.(*ssa.Phi)
 			if !ok || !in[phi.Block()] {
 				continue
 			}
@@ -559,6 +566,43 @@ func rulePanicInventory(c *Ctx, rule string, roots []*ssa.Function, pkgs []strin
 			if src := osErrorSource(p.X); src != "" {
 				ob.Exc("trusted: panics with the error returned by " + src + " - an operating-system / I-O failure, outside the property's quantifier (programs x contents)")
 				return
+			}
+			// a helper that panics with the error it is handed (`check(err)`): the errors are those its call sites pass
+			{
+				pv := p.X
+				if mi, ok := pv.(*ssa.MakeInterface); ok {
+					pv = mi.X
+				}
+				if ci, ok := pv.(*ssa.ChangeInterface); ok {
+					pv = ci.X
+				}
+				if prm, isParam := pv.(*ssa.Parameter); isParam && types.Identical(prm.Type(), types.Universe.Lookup("error").Type()) {
+					idx := -1
+					for i, q := range fn.Params {
+						if q == prm {
+							idx = i
+						}
+					}
+					all, ncall := idx >= 0, 0
+					var srcs []string
+					for caller := range c.allFns {
+						if !c.isRepoFn(caller) {
+							continue
+						}
+						for _, cl := range callsTo(caller, fn) {
+							ncall++
+							if src := osErrorSource(cl.Call.Args[idx]); src != "" {
+								srcs = append(srcs, src)
+							} else {
+								all = false
+							}
+						}
+					}
+					if all && ncall > 0 {
+						ob.Exc("trusted: panics with the error its callers hand it, which at every call site is the error returned by " + strings.Join(uniq(srcs), ", ") + " - an operating-system / I-O failure")
+						return
+					}
+				}
 			}
 			for _, sp := range special {
 				if f, ok := sp[name]; ok {
@@ -929,6 +973,20 @@ func ruleCompileNeverNilNil(c *Ctx, rule string) {
 				}
 			}
 			return len(x.Edges) > 0
+		case *ssa.Call:
+			// a constructor helper of the repository all of whose returns are freshly allocated programs
+			if g := x.Call.StaticCallee(); g != nil && c.isRepoFn(g) && len(g.Blocks) > 0 && g.Signature.Results().Len() == 1 {
+				all, nret := true, 0
+				instrsOf(g, func(in ssa.Instruction) {
+					if ret, ok := in.(*ssa.Return); ok && len(ret.Results) == 1 {
+						nret++
+						if !nonNil(ret.Results[0], d+1) {
+							all = false
+						}
+					}
+				})
+				return all && nret > 0
+			}
 		}
 		return false
 	}
@@ -1001,4 +1059,95 @@ func ruleCompileNeverNilNil(c *Ctx, rule string) {
 			}
 		})
 	}
+}
+
+// ruleBoundedLoops implements C08.R10: every loop of the code generator and the static checker (package bytecode, reachable from
+// Compile) is a counted loop or an iteration over a collection: one of its exits compares a counter that moves by a constant step
+// with a bound, or is the end of a range iterator. A loop that leaves only when some computed state "settles" has no such ranking
+// argument, and Compile may then not return.
+func ruleBoundedLoops(c *Ctx, rule string, pkgs []string) {
+	r := c.R
+	reach := c.Reachable(c.compileRoots()...)
+	n := 0
+	for _, pkg := range pkgs {
+		for _, fn := range c.SrcFuncs(pkg) {
+			if !reach[fn] {
+				continue
+			}
+			k := 0
+			for _, comp := range sccs(fn, func(a, b *ssa.BasicBlock) bool { return true }) {
+				in := map[*ssa.BasicBlock]bool{}
+				for _, b := range comp {
+					in[b] = true
+				}
+				if len(comp) == 1 {
+					self := false
+					for _, s := range comp[0].Succs {
+						if s == comp[0] {
+							self = true
+						}
+					}
+					if !self {
+						continue
+					}
+				}
+				n++
+				k++
+				var first token.Pos
+				for _, b := range comp {
+					for _, x := range b.Instrs {
+						if first == token.NoPos && x.Pos() != token.NoPos {
+							first = x.Pos()
+						}
+					}
+				}
+				ob := r.Ob(rule, fmt.Sprintf("%s: loop #%d has a counted or iterator exit", fnName(fn), k), c.pos(first))
+				isCounter := func(v ssa.Value) bool {
+					terms, _ := linearOver(v)
+					for t := range terms {
+						phi, ok := t.(*ssa.Phi)
+						if !ok || !in[phi.Block()] {
+							continue
+						}
+						for _, e := range phi.Edges {
+							if b, ok := e.(*ssa.BinOp); ok && (b.Op == token.ADD || b.Op == token.SUB) && b.X == ssa.Value(phi) {
+								if kk, ok := constInt(b.Y); ok && kk != 0 {
+									return true
+								}
+							}
+						}
+					}
+					return false
+				}
+				bounded := false
+				var exits []string
+				for _, b := range comp {
+					iff, ok := b.Instrs[len(b.Instrs)-1].(*ssa.If)
+					if !ok || (in[b.Succs[0]] && in[b.Succs[1]]) {
+						continue
+					}
+					exits = append(exits, exprStr(iff.Cond))
+					switch x := iff.Cond.(type) {
+					case *ssa.Extract:
+						if _, isNext := x.Tuple.(*ssa.Next); isNext {
+							bounded = true
+						}
+					case *ssa.BinOp:
+						switch x.Op {
+						case token.LSS, token.LEQ, token.GTR, token.GEQ, token.NEQ, token.EQL:
+							if isCounter(x.X) || isCounter(x.Y) {
+								bounded = true
+							}
+						}
+					}
+				}
+				if bounded {
+					ob.OKnt("an exit compares a counter that moves by a constant step, or is the end of a range iterator")
+				} else {
+					ob.Bad("the loop leaves only on [" + strings.Join(exits, "; ") + "]: no counter or iterator bounds the number of iterations, so for some program Compile does not return")
+				}
+			}
+		}
+	}
+	r.Floor(rule, "loops in the generator and checker", n, 10)
 }
